@@ -57,7 +57,7 @@ def supervise(driver, specs_file, out_file, n_runs):
             # the events of the dying run were not flushed: record the death as the outcome of the injection
             if driver == "reader":
                 f.write(json.dumps({"ev": "Reset", "run": died_run, "reliable": True}, separators=(",", ":")) + "\n")
-                f.write(json.dumps({"ev": "Hostile", "cls": (begun or {}).get("cls", "?"), "w": 3, "n": 0, "len": 0, "panic": False, "msg": err[-200:], "us": 0, "alloc": 0, "died": how}) + "\n")
+                f.write(json.dumps({"ev": "Hostile", "cls": (begun or {}).get("cls", "?"), "w": 3, "n": 0, "len": 0, "panic": False, "msg": err[-200:], "us": 0, "alloc": 0, "died": how, "sock": False}) + "\n")
             else:
                 f.write(json.dumps({"ev": "Reset", "run": died_run, "rel": True, "vol": False, "depth": 2}, separators=(",", ":")) + "\n")
                 f.write(json.dumps({"ev": "Hostile", "cls": (begun or {}).get("cls", "?"), "r": 3, "n": 0, "len": 0, "panic": False, "msg": err[-200:], "us": 0, "alloc": 0, "died": how, "hist": [], "done": False}) + "\n")
@@ -77,7 +77,7 @@ def run(pid, tier, seed, replay=None):
     t0 = time.time()
     d = clean_dir(outdir(pid, "work"))
     build_harness()
-    n_r = 240 if tier == "quick" else 1400
+    n_r = 296 if tier == "quick" else 1480   # 4 rounds over the classes: (matched | not) x (direct | through socket + UDPListener)
     n_w = 72 if tier == "quick" else 480
     results, deaths_all, stats = [], [], {}
     sources = [("reader", n_r, "Trace_RtpsReader.tla", "Trace_RtpsReader.cfg"), ("writer", n_w, "Trace_RtpsWriter.tla", "Trace_RtpsWriter.cfg")]
